@@ -10,6 +10,20 @@ package geom
 //@ pred Adv(p) = region(p.body) == old(region(p.body)) && offset(p.body) + len(p.body) == old(offset(p.body) + len(p.body)) && len(p.body) <= old(len(p.body)) && offset(p.body) + cap(p.body) == old(offset(p.body) + cap(p.body))
 //@ pred AdvBy(p, k) = Adv(p) && len(p.body) == old(len(p.body)) - k
 
+// ---- byte-level spec functions (C04): value of the 4 / 8 bytes at b[o..] in byte order bo (0 = big endian) ----
+//@ pred U32At(b, o, bo) = ite(bo == 0, b[o] * 16777216 + b[o+1] * 65536 + b[o+2] * 256 + b[o+3], b[o+3] * 16777216 + b[o+2] * 65536 + b[o+1] * 256 + b[o])
+//@ pred U64At(b, o, bo) = ite(bo == 0, U32At(b, o, 0) * 4294967296 + U32At(b, o + 4, 0), U32At(b, o + 4, 1) * 4294967296 + U32At(b, o, 1))
+//@ pred F64At(b, o, bo) = f64frombits(U64At(b, o, bo))
+// the Point encoded at b[o..] with coordinate type ct in byte order bo (NaN,NaN = empty)
+//@ pred PtXYAt(pt, b, o, bo) = (pt.full <==> !isnan(F64At(b, o, bo))) && (pt.full ==> same(pt.coords.XY.X, F64At(b, o, bo)) && same(pt.coords.XY.Y, F64At(b, o + 8, bo)))
+//@ pred PtAt(pt, b, o, bo, ct) = PtXYAt(pt, b, o, bo) && pt.coords.Type == ct && (pt.full && HasZ(ct) ==> same(pt.coords.Z, F64At(b, o + 16, bo))) && (pt.full && HasM(ct) ==> same(pt.coords.M, F64At(b, o + ite(HasZ(ct), 24, 16), bo)))
+//@ pred PtOK(b, o, bo) = (isnan(F64At(b, o, bo)) <==> isnan(F64At(b, o + 8, bo)))
+
+// a complete Point element (byte order, type code, ordinates) at b[0..]
+//@ pred PointHdr(b) = len(b) >= 5 && b[0] <= 1 && U32At(b, 1, b[0]) % 1000 == 1 && U32At(b, 1, b[0]) / 1000 <= 3
+//@ pred PointElemOK(b) = len(b) >= 5 + 8 * Dim(U32At(b, 1, b[0]) / 1000) && PtOK(b, 5, b[0])
+//@ pred GeomIsPointAt(g, b) = g.gtype == 1 && g.ptr != nil && PtAt(deref(g.ptr, Point), b, 5, b[0], U32At(b, 1, b[0]) / 1000)
+
 //@ func bytesAsFloats
 //@   trusted
 //@   ensures len(result) == len(byts) / 8 && (len(byts) == 0 ==> result == nil)
@@ -27,6 +41,7 @@ package geom
 //@   ovfcheck
 //@   modifies p
 //@   ensures result1 == nil ==> AdvBy(p, 1) && result0 == old(p.body[0])
+//@   ensures result1 == nil <==> old(len(p.body)) >= 1
 //@   ensures result1 != nil ==> same(deref(p, wkbParser), old(deref(p, wkbParser)))
 //@   ensures p.bo == old(p.bo) && p.no == old(p.no)
 
@@ -34,6 +49,7 @@ package geom
 //@   ovfcheck
 //@   modifies p
 //@   ensures result == nil ==> AdvBy(p, 1) && (p.bo == 0 || p.bo == 1) && p.bo == old(p.body[0])
+//@   ensures result == nil <==> old(len(p.body)) >= 1 && old(p.body[0]) <= 1
 //@   ensures result == nil ==> (p.no <==> ((p.bo == 1) <==> (nativeOrder == IFACE_LE)))
 //@   ensures result != nil ==> Adv(p)
 
@@ -42,6 +58,7 @@ package geom
 //@   modifies p
 //@   ensures result1 == nil ==> AdvBy(p, 4)
 //@   ensures result1 != nil ==> Adv(p)
+//@   ensures result1 == nil <==> old(len(p.body)) >= 4
 //@   ensures p.bo == old(p.bo) && p.no == old(p.no)
 //@   ensures result1 == nil && p.bo == 0 ==> result0 == old(p.body[0]) * 16777216 + old(p.body[1]) * 65536 + old(p.body[2]) * 256 + old(p.body[3])
 //@   ensures result1 == nil && p.bo != 0 ==> result0 == old(p.body[3]) * 16777216 + old(p.body[2]) * 65536 + old(p.body[1]) * 256 + old(p.body[0])
@@ -50,6 +67,8 @@ package geom
 //@   ovfcheck
 //@   modifies p
 //@   ensures result1 == nil ==> AdvBy(p, 8)
+//@   ensures result1 == nil <==> old(len(p.body)) >= 8
+//@   ensures result1 == nil ==> same(result0, F64At(old(p.body), 0, p.bo))
 //@   ensures result1 != nil ==> Adv(p)
 //@   ensures p.bo == old(p.bo) && p.no == old(p.no)
 
@@ -57,6 +76,8 @@ package geom
 //@   ovfcheck
 //@   modifies p
 //@   ensures result2 == nil ==> AdvBy(p, 4) && 0 <= result0 && result0 <= 6 && result1 < 4
+//@   ensures result2 == nil <==> old(len(p.body)) >= 4 && 1 <= U32At(old(p.body), 0, p.bo) % 1000 && U32At(old(p.body), 0, p.bo) % 1000 <= 7 && U32At(old(p.body), 0, p.bo) / 1000 <= 3
+//@   ensures result2 == nil ==> result0 == (U32At(old(p.body), 0, p.bo) % 1000) % 7 && result1 == U32At(old(p.body), 0, p.bo) / 1000
 //@   ensures result2 != nil ==> Adv(p)
 //@   ensures p.bo == old(p.bo) && p.no == old(p.no)
 
@@ -64,8 +85,11 @@ package geom
 //@   ovfcheck
 //@   modifies p
 //@   allocbound 48 * len(p.body) + 64
+//@   requires ctype < 4
 //@   ensures Adv(p) && p.bo == old(p.bo) && p.no == old(p.no)
 //@   ensures result1 == nil ==> result0.coords.Type == ctype
+//@   ensures result1 == nil <==> old(len(p.body)) >= 8 * Dim(ctype) && PtOK(old(p.body), 0, p.bo)
+//@   ensures result1 == nil ==> AdvBy(p, 8 * Dim(ctype)) && PtAt(result0, old(p.body), 0, p.bo, ctype)
 
 //@ func (*wkbParser).parseLineString
 //@   ovfcheck
@@ -87,12 +111,20 @@ package geom
 //@   modifies p
 //@   allocbound 48 * len(p.body) + 64
 //@   ensures Adv(p) && p.bo == old(p.bo) && p.no == old(p.no)
+//@   ensures result1 == nil ==> old(len(p.body)) >= 5 && old(p.body[0]) <= 1 && result0.gtype == (U32At(old(p.body), 1, old(p.body[0])) % 1000) % 7 && 1 <= U32At(old(p.body), 1, old(p.body[0])) % 1000 && U32At(old(p.body), 1, old(p.body[0])) % 1000 <= 7 && U32At(old(p.body), 1, old(p.body[0])) / 1000 <= 3
+//@   ensures PointHdr(old(p.body)) && result1 == nil ==> PointElemOK(old(p.body))
+//@   ensures PointHdr(old(p.body)) && PointElemOK(old(p.body)) ==> result1 == nil
+//@   ensures PointHdr(old(p.body)) && result1 == nil ==> GeomIsPointAt(result0, old(p.body)) && AdvBy(p, 5 + 8 * Dim(U32At(old(p.body), 1, old(p.body[0])) / 1000))
 
 //@ func (*wkbParser).run
 //@   ovfcheck
 //@   modifies p
 //@   allocbound 48 * len(p.body) + 64
 //@   ensures Adv(p)
+//@   ensures result1 == nil ==> old(len(p.body)) >= 5 && old(p.body[0]) <= 1 && result0.gtype == (U32At(old(p.body), 1, old(p.body[0])) % 1000) % 7 && 1 <= U32At(old(p.body), 1, old(p.body[0])) % 1000 && U32At(old(p.body), 1, old(p.body[0])) % 1000 <= 7 && U32At(old(p.body), 1, old(p.body[0])) / 1000 <= 3
+//@   ensures PointHdr(old(p.body)) && result1 == nil ==> PointElemOK(old(p.body))
+//@   ensures PointHdr(old(p.body)) && PointElemOK(old(p.body)) ==> result1 == nil
+//@   ensures PointHdr(old(p.body)) && result1 == nil ==> GeomIsPointAt(result0, old(p.body)) && AdvBy(p, 5 + 8 * Dim(U32At(old(p.body), 1, old(p.body[0])) / 1000))
 
 //@ func (*wkbParser).parseGeomRoot
 //@   ovfcheck
@@ -100,12 +132,27 @@ package geom
 //@   modifies p
 //@   allocbound 48 * len(p.body) + 64
 //@   ensures Adv(p) && p.bo == old(p.bo) && p.no == old(p.no)
+//@   requires ctype < 4
+//@   ensures result1 == nil ==> result0.gtype == gtype
+//@   ensures gtype == 1 ==> (result1 == nil <==> old(len(p.body)) >= 8 * Dim(ctype) && PtOK(old(p.body), 0, p.bo))
+//@   ensures gtype == 1 && result1 == nil ==> result0.ptr != nil && PtAt(deref(result0.ptr, Point), old(p.body), 0, p.bo, ctype) && AdvBy(p, 8 * Dim(ctype))
 
 //@ func (*wkbParser).parseMultiPoint
 //@   ovfcheck
 //@   modifies p
 //@   allocbound 48 * len(p.body) + 64
 //@   ensures Adv(p) && p.bo == old(p.bo) && p.no == old(p.no)
+//@   requires ctype < 4
+//@   ensures result1 == nil ==> old(len(p.body)) >= 4 && len(result0.points) == U32At(old(p.body), 0, p.bo)
+//@   ensures result1 == nil && U32At(old(p.body), 0, p.bo) >= 1 ==> old(len(p.body)) >= 9 && old(p.body[4]) <= 1
+//@   ensures result1 == nil && U32At(old(p.body), 0, p.bo) >= 1 ==> (result0.points[0].full <==> !isnan(F64At(old(p.body), 9, old(p.body[4]))))
+//@   ensures result1 == nil && U32At(old(p.body), 0, p.bo) >= 1 && result0.points[0].full ==> same(result0.points[0].coords.XY.X, F64At(old(p.body), 9, old(p.body[4])))
+//@   ensures result1 == nil && U32At(old(p.body), 0, p.bo) >= 1 && result0.points[0].full ==> same(result0.points[0].coords.XY.Y, F64At(old(p.body), 17, old(p.body[4])))
+//@   ensures result1 == nil && U32At(old(p.body), 0, p.bo) >= 1 ==> PtXYAt(result0.points[0], old(p.body), 9, old(p.body[4]))
+//@   loop 0 invariant n == U32At(old(p.body), 0, p.bo) && old(len(p.body)) >= 4 && (i == 0 ==> AdvBy(p, 4))
+//@   loop 0 invariant i >= 1 ==> old(len(p.body)) >= 9 && old(p.body[4]) <= 1
+//@   loop 0 invariant i >= 1 ==> (pts[0].full <==> !isnan(F64At(old(p.body), 9, old(p.body[4]))))
+//@   loop 0 invariant i >= 1 ==> PtXYAt(pts[0], old(p.body), 9, old(p.body[4]))
 //@   loop 0 invariant 0 <= i && i <= n && len(pts) == n && Adv(p) && p.bo == old(p.bo) && p.no == old(p.no) && fresh(pts) && p != nil
 //@   loop 0 invariant forall k :: 0 <= k && k < len(pts) ==> PtInv(pts[k])
 
@@ -136,3 +183,61 @@ package geom
 //@ func UnmarshalWKB
 //@   ovfcheck
 //@   allocbound 48 * len(wkb) + 64
+//@   ensures len(nv) > 0 && PointHdr(wkb) ==> (result1 == nil <==> PointElemOK(wkb))
+//@   ensures len(nv) > 0 && PointHdr(wkb) && result1 == nil ==> GeomIsPointAt(result0, wkb)
+//@   ensures len(nv) > 0 && result1 == nil ==> len(wkb) >= 5 && wkb[0] <= 1 && result0.gtype == (U32At(wkb, 1, wkb[0]) % 1000) % 7
+
+// ---- encoder side (C04) ----
+//@ pred NB(d) = ite(nativeOrder == IFACE_LE, 1, 0)
+//@ pred Appended(n, o, k) = len(n) == len(o) + k && ((cap(o) > 0 && region(n) == region(o) && offset(n) == offset(o)) || fresh(n)) && (forall q :: 0 <= q && q < len(o) ==> n[q] == old(o[q]))
+
+//@ func newWKBMarshaler
+//@   ensures result != nil && fresh(result) && same(result.buf, buf)
+
+//@ func (*wkbMarshaler).writeByteOrder
+//@   modifies m, m.buf
+//@   ensures Appended(m.buf, old(m.buf), 1) && m.buf[old(len(m.buf))] == NB(0)
+
+//@ func (*wkbMarshaler).writeGeomType
+//@   requires 0 <= geomType && geomType <= 6 && ctype < 4
+//@   modifies m, m.buf
+//@   ensures Appended(m.buf, old(m.buf), 4) && U32At(m.buf, old(len(m.buf)), NB(0)) == ctype * 1000 + ite(geomType == 0, 7, geomType)
+
+//@ func (*wkbMarshaler).writeCount
+//@   requires 0 <= n && n < 4294967296
+//@   modifies m, m.buf
+//@   ensures Appended(m.buf, old(m.buf), 4) && U32At(m.buf, old(len(m.buf)), NB(0)) == n
+
+//@ func (*wkbMarshaler).writeFloat64
+//@   modifies m, m.buf
+//@   ensures Appended(m.buf, old(m.buf), 8)
+//@   ensures U64At(m.buf, old(len(m.buf)), NB(0)) == f64bits(f)
+//@   ensures same(F64At(m.buf, old(len(m.buf)), NB(0)), f)
+
+//@ func (*wkbMarshaler).writeCoordinates
+//@   split c.Type 0 1 2 3
+//@   timeout 60
+//@   requires c.Type < 4
+//@   modifies m, m.buf
+//@   ensures Appended(m.buf, old(m.buf), 8 * Dim(c.Type))
+//@   ensures same(F64At(m.buf, old(len(m.buf)), NB(0)), c.XY.X) && same(F64At(m.buf, old(len(m.buf)) + 8, NB(0)), c.XY.Y)
+//@   ensures HasZ(c.Type) ==> same(F64At(m.buf, old(len(m.buf)) + 16, NB(0)), c.Z)
+//@   ensures HasM(c.Type) ==> same(F64At(m.buf, old(len(m.buf)) + ite(HasZ(c.Type), 24, 16), NB(0)), c.M)
+
+//@ func Point.AppendWKB
+//@   requires PtInv(p)
+//@   modifies dst
+//@   ensures Appended(result, dst, 5 + 8 * Dim(p.coords.Type)) && result[len(dst)] == NB(0) && U32At(result, len(dst) + 1, NB(0)) == p.coords.Type * 1000 + 1
+//@   ensures p.full ==> same(F64At(result, len(dst) + 5, NB(0)), p.coords.XY.X) && same(F64At(result, len(dst) + 13, NB(0)), p.coords.XY.Y)
+//@   ensures p.full && HasZ(p.coords.Type) ==> same(F64At(result, len(dst) + 21, NB(0)), p.coords.Z)
+//@   ensures p.full && HasM(p.coords.Type) ==> same(F64At(result, len(dst) + ite(HasZ(p.coords.Type), 29, 21), NB(0)), p.coords.M)
+//@   ensures !p.full ==> isnan(F64At(result, len(dst) + 5, NB(0))) && isnan(F64At(result, len(dst) + 13, NB(0)))
+
+// round trip of every Point through the real encoder and decoder
+//@ func verifWKBPointRoundTrip
+//@   requires PtInv(pt) && (pt.full ==> !isnan(pt.coords.XY.X) && !isnan(pt.coords.XY.Y))
+//@   ensures result1 == nil && result0.gtype == 1 && result0.ptr != nil
+//@   ensures deref(result0.ptr, Point).full == pt.full && deref(result0.ptr, Point).coords.Type == pt.coords.Type
+//@   ensures pt.full ==> same(deref(result0.ptr, Point).coords.XY, pt.coords.XY)
+//@   ensures pt.full && HasZ(pt.coords.Type) ==> same(deref(result0.ptr, Point).coords.Z, pt.coords.Z)
+//@   ensures pt.full && HasM(pt.coords.Type) ==> same(deref(result0.ptr, Point).coords.M, pt.coords.M)
